@@ -1,7 +1,7 @@
 (* Dispatcher of the model area: component tree -- parse, serialise, walk, used time zones
    (C01 C02 C04 C09 C10 C18 C20).  Definitions only. *)
 Require Import Lib.Base Lib.Chain Gen.Gen_parser Gen.Gen_cal Model.Text Model.Params Model.Fold Model.Contentline
-        Model.Dispatch Model.Tree Model.TreeOps Model.UsedTz.
+        Model.Dispatch Model.Tree Model.TreeOps Model.UsedTz Model.Api.
 From Coq Require Import String.
 Local Open Scope string_scope.
 
@@ -176,6 +176,31 @@ Definition dispatch_tree (f : list N) (a : jv) : option jv :=
         | _, _, _ => junsupported
         end
     | _ => junsupported end
+  else if is f "api_build" then
+    (* ops = [[0|1 (add|set), name, is_list, [values]] ...] -> the property mapping *)
+    Some match a with
+    | JL ops =>
+        match opt_all (map (fun o => match o with
+                                     | JL [JZ kind; JS n; JZ many; JL vs] =>
+                                         match opt_all (map value_of vs) with
+                                         | Some vals =>
+                                             let nv := if (many =? 0)%Z then match vals with [v] => Some (NOne v) | _ => None end else Some (NMany vals) in
+                                             option_map (fun nv' => if (kind =? 0)%Z then OpAdd n nv' else OpSet n nv') nv
+                                         | None => None end
+                                     | _ => None end) ops) with
+        | Some ops' => JL (map jentry (api_build ops'))
+        | None => junsupported
+        end
+    | _ => junsupported end
+  else if is f "ddd_params" then
+    (* kinds: 0 date, 1 naive, 2 utc, 3 time, 4 timedelta, 5 period, or a zone id string *)
+    Some (let kind_of := fun j => match j with
+                                  | JZ 0 => Some KDate | JZ 1 => Some KNaive | JZ 2 => Some KUtc | JZ 3 => Some KTimeNaive
+                                  | JZ 4 => Some KTimedelta | JZ 5 => Some KPeriod | JS z => Some (KZoned z) | _ => None end in
+          match a with
+          | JL [JZ 0; k] => match kind_of k with Some k' => jparams (ddd_params k') | None => junsupported end
+          | JL [JZ 1; JL ks] => match opt_all (map kind_of ks) with Some ks' => jparams (dddlist_params ks') | None => junsupported end
+          | _ => junsupported end)
   else if is f "type_key" then
     Some match a with JS n => if all_ascii n then JL [JS (type_key n); match class_name_of_key (type_key n) with Some c => JS c | None => JL [] end] else junsupported | _ => junsupported end
   else if is f "canonsort_keys" then
